@@ -283,7 +283,7 @@ def spawn_binary(with_export, tsan=False, imported=False, decoys=0):
                     cc = ['clang', '-O1', '-g', '-w'] + (['-fsanitize=thread'] if tsan else ['-fsanitize=address,undefined', '-fno-sanitize-recover=all'])
                     cmd = cc + (['-DVF_IMPORTED_MEMORY=1'] if imported else []) + W.WASI_DEFS + ['-I', os.path.join(cexec.REPO, 'w2c2'), '-I', os.path.join(cexec.REPO, 'futex'), '-I', d,
                                                                                               drv, os.path.join(d, 'm.c'), os.path.join(cexec.REPO, 'wasi', 'wasi.c')] + \
-                        [os.path.join(cexec.REPO, 'futex', f) for f in cexec.FUTEX_SRCS] + ['-o', out + '.tmp%d' % os.getpid(), '-lpthread', '-lm']
+                        [os.path.join(cexec.REPO, 'futex', f) for f in cexec.FUTEX_SRCS] + ['-Wl,--wrap=pthread_create', '-o', out + '.tmp%d' % os.getpid(), '-lpthread', '-lm']
                     r = cexec.run(cmd, cwd=d)
                     if r.returncode != 0:
                         raise cexec.InfraError('building the thread-spawn harness failed: %s' % r.stderr.decode(errors='replace')[-1500:])
@@ -297,7 +297,9 @@ def spawn_binary(with_export, tsan=False, imported=False, decoys=0):
 def case_spawn(ch):
     return {'kind': 'spawn', 'T': ch.pick((1, 2, 3, 4, 8)), 'K': ch.pick((1, 2, 4, 8, 16)), 'export': ch.below(5) != 0,
             'tsan': False, 'imported': ch.below(3) == 0, 'depth': ch.pick((0, 0, 1, 2)),
-            'decoys': ch.pick((0, 0, 0, 1, 2, 3, 4, 5))}
+            'decoys': ch.pick((0, 0, 0, 1, 2, 3, 4, 5)),
+            # every n-th thread creation made by thread-spawn fails (EAGAIN: the host has run out of threads)
+            'fail_every': ch.pick((0, 0, 0, 2, 3, 5))}
 
 
 def run_spawn(case):
@@ -306,12 +308,14 @@ def run_spawn(case):
     env.update(cexec.ASAN_ENV)
     env['TSAN_OPTIONS'] = 'exitcode=96:halt_on_error=0:report_thread_leaks=0'
     try:
-        r = subprocess.run([exe, str(case['T']), str(case['K']), str(case.get('depth', 0))], stdout=subprocess.PIPE, stderr=subprocess.PIPE, env=env, timeout=120)
+        if case.get('fail_every'):
+            case = dict(case, depth=0)
+        r = subprocess.run([exe, str(case['T']), str(case['K']), str(case.get('depth', 0)), str(case.get('fail_every', 0))], stdout=subprocess.PIPE, stderr=subprocess.PIPE, env=env, timeout=120)
     except subprocess.TimeoutExpired:
         return 'timeout', 'thread-spawn harness did not finish within 120 s'
     err = r.stderr.decode(errors='replace')
     if r.returncode != 0:
-        return 'spawn-crash:%d' % r.returncode, 'harness exit %d: %s' % (r.returncode, err[-800:])
+        return 'spawn-crash:%d' % r.returncode, 'harness exit %d: %s' % (r.returncode, cexec.san_head(err, 800))
     spawns, logs, n = [], [], None
     for ln in r.stdout.decode().splitlines():
         p = ln.split()
@@ -321,6 +325,8 @@ def run_spawn(case):
             logs.append((int(p[1]), int(p[2])))
         elif p[0] == 'N':
             n = int(p[1])
+        elif p[0] == 'P' and (int(p[1]) != 1 or int(p[2]) != 1):
+            return 'spawn-memory', 'after the spawns the shared memory reports %s page(s), data pointer %s' % (p[1], 'set' if int(p[2]) else 'NULL')
         elif p[0] == 'X' and int(p[1]):
             return 'spawn-lookalike', 'an export whose name merely resembles wasi_thread_start was run %s time(s) as thread start function' % p[1]
     if not case['export']:
@@ -330,6 +336,9 @@ def run_spawn(case):
         if n:
             return 'spawn-missing-export', 'a start function ran although wasi_thread_start is not exported'
         return None
+    if case.get('fail_every'):
+        # a spawn whose thread could not be created reports a negative value and its start function never runs; the others are as usual
+        spawns = [(arg, ret) for arg, ret in spawns if ret >= 0]
     ids = [ret for arg, ret in spawns]
     if any(i <= 0 for i in ids):
         return 'spawn-id', 'thread-spawn returned a non-positive id: %r' % sorted(ids)[:5]
@@ -374,6 +383,8 @@ def classify(case):
             out.append('spawn>=8_concurrent')
         if case.get('decoys'):
             out.append('spawn_with_lookalike_export_names')
+        if case.get('fail_every'):
+            out.append('spawn_with_failing_thread_creation')
         if not case['export']:
             out.append('spawn_missing_export')
         if case.get('imported'):
